@@ -162,7 +162,8 @@ def lean_prop(name: str, params: str, body: str, doc: str) -> str:
 #      `if C: v = E1 else: v = E2` (a local; `C`, `E1`, `E2` boolean and pure) is `v = C and E1 or not C and E2`;
 #      boolean functions: `if C: return True else: return E` is `return C or E`,
 #      …; the `else` after a branch that ends is un-nested; a trailing `continue` / bare `return` is dropped;
-#      `v = E; return v` is `return E`;
+#      `v = E; return v` is `return E`; `if C: v = E1 else: v = E2` + `T = v` (the only use of `v`) is
+#      `if C: T = E1 else: T = E2`;
 #   h. consecutive `if`s on the same local variable are merged when the first does not assign it — also when the
 #      local is one conjunct of the tests with opposite signs and whatever precedes it in them is total:
 #      `if not v and P: X` + `if Q and v: Y` is `if v: (if Q: Y) else: (if P: X)`; after `v = c[i]`
@@ -1315,7 +1316,7 @@ def _inline_helpers(stmts: list[ast.stmt], scope: _Scope, depth: int) -> list[as
     def continue_at_returns(block: list[ast.stmt], targets, rest: list[ast.stmt]) -> list[ast.stmt] | None:
         """The helper's body with every `return E` replaced by `<targets> = E; <rest>` (None: a return inside a loop)."""
         res: list[ast.stmt] = []
-        for x in block:
+        for k, x in enumerate(block):
             if isinstance(x, ast.Return):
                 if targets is not None:
                     res.append(ast.Assign(targets=copy.deepcopy(targets),
@@ -1323,10 +1324,17 @@ def _inline_helpers(stmts: list[ast.stmt], scope: _Scope, depth: int) -> list[as
                 res += copy.deepcopy(rest)
                 return res
             if isinstance(x, ast.If):
-                a, b = continue_at_returns(x.body, targets, rest), continue_at_returns(x.orelse, targets, rest)
-                if a is None or b is None:
-                    return None
-                res.append(ast.If(test=x.test, body=a, orelse=b))
+                if any(isinstance(n, ast.Return) for n in ast.walk(x)):
+                    # a path that returned must not run into what follows the `if` in the helper (the continuation need
+                    # not end): the remaining statements of the helper belong to the branches that go on
+                    later = block[k + 1:]
+                    a = continue_at_returns(x.body + ([] if _always_ends(x.body) else copy.deepcopy(later)), targets, rest)
+                    b = continue_at_returns(x.orelse + ([] if _always_ends(x.orelse) else copy.deepcopy(later)), targets, rest)
+                    if a is None or b is None:
+                        return None
+                    res.append(ast.If(test=x.test, body=a, orelse=b))
+                    return res
+                res.append(x)
             elif any(isinstance(n, ast.Return) for n in ast.walk(x)):
                 return None
             else:
@@ -1996,6 +2004,23 @@ def normalize(fn: ast.FunctionDef, scope: _Scope | None = None, depth: int = 0) 
                     if ret is not None:
                         out.append(ast.Return(value=ret))
                         break
+                # `if C: …; v = E1 else: …; v = E2` + `T = v` (the only use of the local `v`)  ==  `if C: …; T = E1 else: …; T = E2`
+                # (the right-hand side of an assignment is evaluated before its target: the order does not change)
+                if (s.body and s.orelse and rest and isinstance(rest[0], ast.Assign) and isinstance(rest[0].value, ast.Name)
+                        and all(isinstance(b[-1], ast.Assign) and len(b[-1].targets) == 1
+                                and isinstance(b[-1].targets[0], ast.Name) and b[-1].targets[0].id == rest[0].value.id
+                                for b in (s.body, s.orelse))):
+                    v = rest[0].value.id
+                    users = [x for x in ast.walk(fn) if isinstance(x, ast.stmt) and not isinstance(x, ast.FunctionDef)
+                             and any(isinstance(c, ast.expr) and _uses_in(c, v) for c in ast.iter_child_nodes(x))]
+                    if (v in local_names() - set(params) and not _mentions(rest[0].targets, {v}) and not _mentions(rest[1:], {v})
+                            and all(_dump(x) == _dump(rest[0]) for x in users)
+                            and not any(isinstance(n, (ast.Lambda, ast.FunctionDef)) and _uses_in(n, v) for n in ast.walk(fn)
+                                        if n is not fn)):
+                        for b in (s.body, s.orelse):
+                            b[-1] = ast.Assign(targets=copy.deepcopy(rest[0].targets), value=b[-1].value)
+                        rest = rest[1:]
+                        stmts = stmts[:i + 1] + rest
                 if s.orelse and _always_ends(s.body):            # un-nest the `else` of a branch that ends
                     tail_stmts, s.orelse = s.orelse, []
                     out.append(s)
